@@ -179,7 +179,7 @@ class PipelineMonitor:
         for (bi, ri), d in degrees.items():
             rule = engine.rule_blocks[bi].rules[ri]
             ctx.hit("compare:rule degree")
-            if not W.same(rule.activation_degree, d):
+            if not W.agree(ctx, rule.activation_degree, d, "rule degree"):
                 ctx.violation("a rule's activation degree is not weight x antecedent", dict(case, rule=rule.text, block=bi), d, rule.activation_degree)
                 return
             dd = np.asarray(d, dtype=float)
@@ -193,7 +193,7 @@ class PipelineMonitor:
                 ctx.violation("fuzzy output has a different number of activated terms than the pipeline yields", dict(case, variable=ov.name, fuzzy=ov.fuzzy.parameters()), [(t.name, d) for t, d, _ in mine], len(theirs))
                 return
             for k, ((t, d, imp), act) in enumerate(zip(mine, theirs)):
-                if act.term is not t or act.implication is not imp or not W.same(act.degree, d):
+                if act.term is not t or act.implication is not imp or not W.agree(ctx, act.degree, d, "activated degree"):
                     what = "term" if act.term is not t else "implication" if act.implication is not imp else "degree"
                     ctx.violation(f"an activated term of the fuzzy output differs from the pipeline ({what})", dict(case, variable=ov.name, position=k, fuzzy=ov.fuzzy.parameters()), (t.name, d), (act.term.name, act.degree))
                     return
@@ -218,7 +218,7 @@ class PipelineMonitor:
                 got = got * len(exp)
             if len(exp) == 1 and len(got) > 1:
                 exp = exp * len(got)
-            if len(got) != len(exp) or not all(c12.feq(a, b) for a, b in zip(got, exp)):
+            if len(got) != len(exp) or not W.agree(ctx, got, exp, "output value"):
                 ctx.violation("output value differs from defuzzifier(aggregated contributions) + cascade", dict(case, variable=ov.name, fuzzy=ov.fuzzy.parameters(), defuzzifier=str(ov.defuzzifier)), exp, got)
                 return
             if any(not math.isnan(v) for v in got):
